@@ -636,6 +636,9 @@ func c03Case(c *core.C) {
 		return
 	}
 	small := len(doc.NodeList.Nodes) <= 12
+	if gen.IsRelatedIDs(doc.NodeList) {
+		c.Cover("identifiers:short-and-related(prefixes, suffixes, concatenations of one another)")
+	}
 	det := map[string]any{"origin": origin}
 	if small {
 		det["document"] = doc.String()
@@ -645,6 +648,29 @@ func c03Case(c *core.C) {
 		c.Sample(map[string]any{"origin": origin, "graph": gen.Canon(doc.NodeList)})
 	}
 	snapshot := gen.Clone(doc)
+	if r.Intn(3) == 0 && len(doc.NodeList.Nodes) >= 2 {
+		// the same process first writes ANOTHER document that uses the same identifiers in other roles (what was
+		// nested is top-level and the other way round); what it leaves behind must not show in this document's output
+		pre := gen.Clone(doc)
+		pre.NodeList.Edges = nil
+		ns := pre.NodeList.Nodes
+		perm := r.Perm(len(ns))
+		pre.NodeList.RootElements = []string{ns[perm[0]].Id}
+		for i := 1; i < len(perm); i++ {
+			parent := ns[perm[r.Intn(i)]].Id
+			if r.Intn(3) == 0 {
+				parent = ns[perm[0]].Id
+			}
+			pre.NodeList.Edges = append(pre.NodeList.Edges, &sbom.Edge{From: parent, Type: sbom.Edge_contains, To: []string{ns[perm[i]].Id}})
+		}
+		for _, f := range c03Formats {
+			if guard(c, "write:"+string(f), det, func() { _, _ = writeDoc(pre, f, 2) }) {
+				return
+			}
+		}
+		c.Cover("written-after-a-document-with-the-same-identifiers-in-other-roles")
+		det["written_before"] = gen.Canon(pre.NodeList)
+	}
 	for _, f := range c03Formats {
 		det["format"] = string(f)
 		var out []byte
